@@ -1,5 +1,6 @@
 import TxdbusModel.Bus.RouteFullSpec
 import TxdbusModel.Proofs.Route.Match
+import TxdbusModel.Proofs.Route.Text
 import TxdbusModel.Proofs.Bus.RouteMain
 /-
 C14 x C12 (extension 2026-09-30) - lemmas: the bus's rule predicate against the specification
@@ -55,7 +56,9 @@ theorem matchArg0ns_iff (a : RuleArgs) (v : Txdbus.Route.Msg) (h : a.arg0ns ≠ 
     | cons x t =>
       cases x with
       | other => simp
-      | str s => simp [inBusNamespace]
+      | str s =>
+        simp [inBusNamespace]
+        by_cases hs : s = ns <;> simp [hs]
 
 theorem fullMatch_call_iff (b : Bool) (r : Rule) (v : Txdbus.Route.Msg) :
     fullMatch b r v = .call ↔
@@ -96,6 +99,23 @@ theorem holds_iff_spec_cur (b : Bool) (a : FullRule) (m : Msg) (hwf : FullRule.W
     rw [matchArg0ns_iff a (ruleView m) (hwf.2 rfl)]
     simp
 
+/-- Every AddMatch event of a history registers a well-formed rule. -/
+def Event.ruleWF (b : Bool) : Event FullRule → Prop
+  | .msg _ _ (.addMatch a) => FullRule.WF b a
+  | _ => True
+
+/-- The AddMatch event carries the text a txdbus client writes for some well-formed constraints `a`
+(`Route.renderRule`: C12's model of `DBusClientConnection.addMatch`), and registers what the bus's parser
+(`addMatchOp`) makes of that text. -/
+def Event.fromClientText (b : Bool) : Event FullRule → Prop
+  | .msg _ m (.addMatch r) =>
+      ∃ a, FullRule.WF b a ∧ ruleTextOf m = some (Txdbus.Route.renderRule a)
+        ∧ addMatchOp (Txdbus.Route.renderRule a) = some (.addMatch r)
+  | _ => True
+
+theorem FullRule.WF.normalize {b : Bool} {a : FullRule} (h : FullRule.WF b a) : FullRule.WF b a.normalize :=
+  ⟨⟨h.1.mtype, h.1.iface, h.1.member, h.1.path, h.1.dest, h.1.pathNs⟩, h.2⟩
+
 /-! ### the simple rules of the first version are the full rules without the new keys -/
 
 theorem mtypeName_num (t v : MType) :
@@ -109,14 +129,14 @@ def SimpleRule.NonEmpty (r : SimpleRule) : Prop :=
 theorem SimpleRule.toFull_wf (b : Bool) (r : SimpleRule) (h : r.NonEmpty) : FullRule.WF b r.toFull := by
   obtain ⟨h1, h2, h3, h4⟩ := h
   refine ⟨⟨?_, h1, h2, h3, h4, by simp [SimpleRule.toFull]⟩, fun _ => by simp [SimpleRule.toFull]⟩
-  simp only [SimpleRule.toFull]
+  show Option.map MType.ruleName r.mtype ≠ some []
   cases r.mtype with
   | none => simp
-  | some t => cases t <;> simp [MType.ruleName]
+  | some t => cases t <;> decide
 
 theorem optAttr_beq (o : Option Name) (v : Name) : (optAttr o == Attr.some v) = decide (o = some v) := by
   cases o with
-  | none => simp [optAttr]; rfl
+  | none => simp [optAttr]
   | some w =>
     simp only [optAttr]
     by_cases h : w = v
@@ -126,7 +146,7 @@ theorem optAttr_beq (o : Option Name) (v : Name) : (optAttr o == Attr.some v) = 
 
 theorem memberAttr_beq (o : Option Name) (v : Name) : (memberAttr o == Attr.some v) = decide (o = some v) := by
   cases o with
-  | none => simp [memberAttr]; rfl
+  | none => simp [memberAttr]
   | some w =>
     simp only [memberAttr]
     by_cases h : w = v
@@ -206,39 +226,47 @@ theorem step_bcast {cfg : Cfg ρ} (hr : cfg.Repaired) {s : State ρ} (inv : Inv 
     · cases hb
   · cases hb
 
-theorem exec_forall₂ {cfg : Cfg ρ} (hr : cfg.Repaired) {s : State ρ} (inv : Inv s) (h : List (Event ρ))
+theorem exec_stepwise {cfg : Cfg ρ} (hr : cfg.Repaired) {s : State ρ} (inv : Inv s) (h : List (Event ρ))
     (P : Event ρ → Out → Prop) (hP : ∀ (s : State ρ), Inv s → ∀ e, P e (step cfg s e).2) :
-    List.Forall₂ P h (exec cfg s h) := by
+    Stepwise P h (exec cfg s h) := by
   induction h generalizing s with
-  | nil => exact List.Forall₂.nil
-  | cons e es ih => exact List.Forall₂.cons (hP s inv e) (ih (step_inv hr inv e))
+  | nil => exact trivial
+  | cons e es ih => exact ⟨hP s inv e, ih (step_inv hr inv e)⟩
 
 /-- Sublist form: the first copy per step. -/
 theorem firstBcast_sublist (i j : ConnId) (h : List (Event ρ)) (outs : List Out)
-    (hf : List.Forall₂ (fun e o => ∀ x ∈ o.deliveries.filterMap (bcastOf i j),
+    (hf : Stepwise (fun e o => ∀ x ∈ o.deliveries.filterMap (bcastOf i j),
       (bcastSent i e).map wireForm = some (eraseSender x)) h outs) :
     List.Sublist ((outs.filterMap (firstBcast i j)).map eraseSender) ((h.filterMap (bcastSent i)).map wireForm) := by
-  induction hf with
-  | nil => simp
-  | @cons e o es os hhead _ ih =>
-    simp only [List.filterMap_cons]
-    cases hfirst : firstBcast i j o with
-    | none =>
-      cases bcastSent i e with
-      | none => exact ih
-      | some m => simp only [List.map_cons]; exact List.Sublist.cons _ ih
-    | some x =>
-      have hx : x ∈ o.deliveries.filterMap (bcastOf i j) := by
-        unfold firstBcast at hfirst
-        exact List.mem_of_head? hfirst
-      have := hhead x hx
-      cases hs : bcastSent i e with
-      | none => rw [hs] at this; simp at this
-      | some m =>
-        rw [hs] at this
-        simp only [Option.map_some, Option.some.injEq] at this
-        simp only [List.map_cons, this]
-        exact List.Sublist.cons₂ _ ih
+  induction h generalizing outs with
+  | nil =>
+    cases outs with
+    | nil => simp
+    | cons o os => exact absurd hf (by simp [Stepwise])
+  | cons e es ih =>
+    cases outs with
+    | nil => exact absurd hf (by simp [Stepwise])
+    | cons o os =>
+      obtain ⟨hhead, htail⟩ := hf
+      have ih' := ih os htail
+      simp only [List.filterMap_cons]
+      cases hfirst : firstBcast i j o with
+      | none =>
+        cases bcastSent i e with
+        | none => exact ih'
+        | some m => simp only [List.map_cons]; exact List.Sublist.cons _ ih'
+      | some x =>
+        have hx : x ∈ o.deliveries.filterMap (bcastOf i j) := by
+          unfold firstBcast at hfirst
+          exact List.mem_of_head? hfirst
+        have := hhead x hx
+        cases hs : bcastSent i e with
+        | none => rw [hs] at this; simp at this
+        | some m =>
+          rw [hs] at this
+          simp only [Option.map_some, Option.some.injEq] at this
+          simp only [List.map_cons, this]
+          exact List.Sublist.cons_cons _ ih'
 
 end
 
